@@ -224,7 +224,7 @@ class Job:
         return s
 
     def prove(self, oid, conds, neg, replay=None, inputs=None, timeout=30, congruence=None,
-              known=None, extra_models=3, fallback=(), near=None, rewrite=()):
+              known=None, extra_models=3, fallback=(), near=None, rewrite=(), sampler=None, pc=None):
         """obligation: conds => not neg.  unsat: discharged.  sat: candidate, reported only if
         `replay` (module:function, evaluated on the unpatched repo code) reproduces it.
         inputs: {name: z3 term} whose model values are handed to the replay function."""
@@ -265,7 +265,7 @@ class Job:
             res["status"] = "inconclusive"
             res["detail"] = "solver: %s" % s.reason_unknown()
         else:
-            res.update(self._candidate(oid, s, replay, inputs, extra_models, fallback))
+            res.update(self._candidate(oid, s, replay, inputs, extra_models, fallback, sampler, pc))
         if res["status"] == "violated" and known is not None:
             kf = known(res)
             if kf:
@@ -274,7 +274,25 @@ class Job:
         self.results.append(res)
         return res["status"]
 
-    def _candidate(self, oid, s, replay, inputs, extra_models, fallback=()):
+    def _on_path_points(self, inputs, sampler, pc, tries=4000, want=4):
+        """concretisation search for the replay gate: realistic points (drawn by the obligation's sampler) that follow the path of the leaf
+        the candidate lies on, decided by evaluating the leaf's path condition with the true exp / log"""
+        from . import terms
+        names = {k: t.decl().name() for k, t in (inputs or {}).items() if isinstance(t, z3.ExprRef) and z3.is_const(t) and not symx.is_num(t)}
+        out = []
+        for _ in range(tries):
+            pt = sampler(self.rng)
+            env = {n: pt[k] for k, n in names.items() if pt.get(k) is not None}
+            try:
+                if all(terms.evaluate(c, env) for c in pc):
+                    out.append(pt)
+                    if len(out) >= want:
+                        break
+            except Exception:
+                continue
+        return out
+
+    def _candidate(self, oid, s, replay, inputs, extra_models, fallback=(), sampler=None, pc=None):
         """sat answer: extract inputs, replay on the real code; retry with further models"""
         if replay is None:
             return {"status": "inconclusive", "detail": "sat but no replay available (abstraction artefact possible)"}
@@ -314,6 +332,14 @@ class Job:
                         fvals = dict(static)
                         fvals.update(fb)
                         fvals.update(pinned)
+                        out = run_replay(replay, fvals)
+                        if not out["ok"]:
+                            return {"status": "violated", "replay": {"fn": replay, "inputs": out.get("inputs", fvals)},
+                                    "detail": out.get("detail", "")}
+                if sampler is not None and pc:
+                    for pt in self._on_path_points(inputs, sampler, pc):
+                        fvals = dict(static)
+                        fvals.update(pt)
                         out = run_replay(replay, fvals)
                         if not out["ok"]:
                             return {"status": "violated", "replay": {"fn": replay, "inputs": out.get("inputs", fvals)},
